@@ -159,3 +159,36 @@ Print Assumptions C01_getnext_no_crash.
 Print Assumptions C01_getbulk_no_crash.
 Print Assumptions C01_recv_loop_no_crash.
 Print Assumptions C01_walk_no_crash.
+
+(* --- the Python layer (Model/PyLayer.v) adds no exception of its own beyond TimeoutError and the end-of-iteration signals:
+   the blocking client never lets BlockingIOError through and its iterators never end with StopAsyncIteration; whatever else a
+   call raises was raised by the socket method (whose classes C01_error_classes bounds). *)
+From GS Require Import Model.Base Model.Exc Model.Walk Model.PyLayer Proofs.PyLayerProofs.
+Theorem C01_sync_client_exceptions :
+  forall (cfg : pycfg) (fuel : nat) (a : api) (script : list tok), pc_mode cfg = Sync -> r_end (run_api cfg fuel a script) <> PRaise EBlockingIO /\ match a with | ApiGet _ | ApiGetMany _ => True | _ => r_end (run_api cfg fuel a script) <> PRaise EStopAsyncIteration end.
+Proof. exact sync_api_exceptions. Qed.
+
+Theorem C01_async_recv_no_blockingio :
+  forall (m : meth) (a : arg) (script : list tok), snd (fst (a_recv m a script)) <> PRaise EBlockingIO.
+Proof. exact a_recv_no_blocking. Qed.
+
+Theorem C01_recv_exceptions_closed :
+  forall (m : meth) (a : arg) (script : list tok) (e : exc), snd (fst (a_recv m a script)) = PRaise e -> added_exc e \/ In (TRaise e) script.
+Proof. exact a_recv_closed. Qed.
+
+Theorem C01_sync_exceptions_closed :
+  forall (pol iter : bool) (m : meth) (a : arg) (script : list tok) (e : exc), snd (fst (sync_call pol iter m a script)) = PRaise e -> added_exc e \/ In (TRaise e) script.
+Proof. exact sync_call_closed. Qed.
+
+Check C01_sync_client_exceptions :
+  forall (cfg : pycfg) (fuel : nat) (a : api) (script : list tok), pc_mode cfg = Sync -> r_end (run_api cfg fuel a script) <> PRaise EBlockingIO /\ match a with | ApiGet _ | ApiGetMany _ => True | _ => r_end (run_api cfg fuel a script) <> PRaise EStopAsyncIteration end.
+Check C01_async_recv_no_blockingio :
+  forall (m : meth) (a : arg) (script : list tok), snd (fst (a_recv m a script)) <> PRaise EBlockingIO.
+Check C01_recv_exceptions_closed :
+  forall (m : meth) (a : arg) (script : list tok) (e : exc), snd (fst (a_recv m a script)) = PRaise e -> added_exc e \/ In (TRaise e) script.
+Check C01_sync_exceptions_closed :
+  forall (pol iter : bool) (m : meth) (a : arg) (script : list tok) (e : exc), snd (fst (sync_call pol iter m a script)) = PRaise e -> added_exc e \/ In (TRaise e) script.
+Print Assumptions C01_sync_client_exceptions.
+Print Assumptions C01_async_recv_no_blockingio.
+Print Assumptions C01_recv_exceptions_closed.
+Print Assumptions C01_sync_exceptions_closed.
